@@ -442,7 +442,26 @@ func (d *driver) pickOp() (model.Op, bool) {
 	r := objs[d.rng.Intn(len(objs))]
 	key := func() model.Val { return model.Val{K: "str", V: 1 + d.rng.Intn(d.nkeys)} }
 	if d.bigObj {
-		switch c := d.rng.Intn(12); {
+		switch c := d.rng.Intn(14); {
+		case c >= 12: // fill every key, or remove most of the present keys in one call
+			if c == 12 {
+				o := mk("Set", r)
+				for k := 1; k <= d.nkeys; k++ {
+					o.Vs = append(o.Vs, model.Val{K: "str", V: k}, d.scalar())
+				}
+				return o, true
+			}
+			o := mk("Unset", r)
+			present := []int{}
+			for k, v := range d.cur[r-1].E {
+				if v.K != "absent" {
+					present = append(present, k+1)
+				}
+			}
+			d.rng.Shuffle(len(present), func(i, j int) { present[i], present[j] = present[j], present[i] })
+			n := len(present) * (75 + d.rng.Intn(21)) / 100
+			o.Ks = append(o.Ks, present[:n]...)
+			return o, true
 		case c < 4: // bulk Set
 			o := mk("Set", r)
 			for i := 1 + d.rng.Intn(d.nkeys); i > 0; i-- {
@@ -596,6 +615,36 @@ func (d *driver) assign(o model.Op, panicked bool, ret any) model.Val {
 	return none
 }
 
+// unfoldSize: how many cells a deep copy of container id allocates (one per occurrence), capped.
+func (d *driver) unfoldSize(id int, memo map[int]int) int {
+	if v, ok := memo[id]; ok {
+		return v
+	}
+	n := 1
+	for _, v := range d.cur[id-1].E {
+		if v.K == "ref" {
+			n += d.unfoldSize(v.V, memo)
+			if n > 1<<20 {
+				break
+			}
+		}
+	}
+	memo[id] = n
+	return n
+}
+
+// affordable reports whether an operation keeps the recorded heap at a size TLC can follow.
+func (d *driver) affordable(o model.Op) bool {
+	const maxCells = 3000
+	switch o.Op {
+	case "Clone", "CloneO":
+		return len(d.cur)+d.unfoldSize(o.R, map[int]int{}) <= maxCells
+	case "Merge":
+		return len(d.cur)+d.unfoldSize(o.R, map[int]int{})+1 <= maxCells
+	}
+	return len(d.cur) < maxCells
+}
+
 // logStep writes one trace line; the heap is logged as a delta against the previous line
 func (d *driver) logStep(o model.Op, panicked bool, rv model.Val, prev model.Heap) {
 	type ch [2]any
@@ -628,7 +677,7 @@ func (d *driver) step() bool {
 	if !ok {
 		return false
 	}
-	if !d.real.Executable(o) {
+	if !d.real.Executable(o) || !d.affordable(o) {
 		return true
 	}
 	panicked, ret, _ := d.real.Exec(o)
@@ -675,7 +724,7 @@ func cmdDrive(args []string) int {
 		}
 		fmt.Fprintf(w, "{\"t\":\"reset\",\"nkeys\":%d,\"derived\":%d,\"cseed\":%d,\"gen\":%d}\n", *nkeys, *derived, *seed+int64(p), gen)
 		logged := func(o model.Op) {
-			if !d.real.Executable(o) {
+			if !d.real.Executable(o) || !d.affordable(o) {
 				return
 			}
 			panicked, ret, _ := d.real.Exec(o)
@@ -786,7 +835,7 @@ func cmdDrive(args []string) int {
 			sizes = append(sizes, mx)
 		}
 		// Equals on long lists that differ only near the end
-		for si, n := range []int{2047, 2049, 2050 + int(*seed%6)} {
+		for si, n := range []int{2049, 2051 + int(*seed%5), 4101} {
 			n := n
 			scen(20000+si, func(d *driver, logged func(model.Op) model.Val) {
 				a := logged(model.Op{Op: "NewListOf", I: n, V: model.Val{K: "int", V: 1}}).V
@@ -794,7 +843,7 @@ func cmdDrive(args []string) int {
 				if *derived == 0 {
 					logged(model.Op{Op: "Equals", R: a, J: b, V: none})
 				}
-				logged(model.Op{Op: "Replace", R: b, I: n - 1 - d.rng.Intn(7), V: model.Val{K: "int", V: 2}})
+				logged(model.Op{Op: "Replace", R: b, I: n - 1, V: model.Val{K: "int", V: 2}})
 				if *derived == 0 {
 					logged(model.Op{Op: "Equals", R: a, J: b, V: none})
 					logged(model.Op{Op: "Equals", R: b, J: a, V: none})
